@@ -4,7 +4,7 @@ CONSTANTS
   MaxLenU = 3
   MaxLenA = 2
   Keys = {"k1", "k2"}
-  GenKeys = {"k1"}
+  GenKeys = {"k1", "k2"}
   GenSum = 3
   Eras = {"modern", "epoch", "pre1970", "bubble"}
 INVARIANTS CleanOK WindowShape Emit
